@@ -25,8 +25,10 @@ flock 9
 
 log="$B/build.log"
 do_build() {
-  if [ ! -f "$B/build.ninja" ] || [ "$(cat "$B/.repo" 2>/dev/null)" != "$REPO" ]; then
-    rm -rf "$B/CMakeCache.txt" "$B/CMakeFiles"
+  if [ ! -f "$B/build.ninja" ] || [ "$(cat "$B/.repo" 2>/dev/null)" != "$REPO|${VERIF_ENGINES:-}" ]; then
+    if [ "$(cut -d'|' -f1 "$B/.repo" 2>/dev/null)" != "$REPO" ]; then
+      rm -rf "$B/CMakeCache.txt" "$B/CMakeFiles"
+    fi
     cmake -G Ninja -S "$VERIF_ROOT/cmake" -B "$B" \
       -DVERIF_REPO="$REPO" -DVERIF_VARIANT="$variant" \
       -DCMAKE_BUILD_TYPE=None -DCMAKE_CXX_COMPILER=/usr/bin/g++ \
@@ -34,7 +36,7 @@ do_build() {
       -Dnlohmann_json_DIR=/root/miniconda/share/cmake/nlohmann_json \
       -DVERIF_ENGINES="${VERIF_ENGINES:-}" \
       -DCMAKE_EXPORT_COMPILE_COMMANDS=OFF || return 2
-    echo "$REPO" > "$B/.repo"
+    echo "$REPO|${VERIF_ENGINES:-}" > "$B/.repo"
   fi
   if [ ${#targets[@]} -eq 0 ]; then
     cmake --build "$B" -j "$JOBS" || return 2
